@@ -65,7 +65,7 @@ def ensure_playback_files(clear=False):
             open(p, 'w').write('')
 
 
-def run_harnesses(names, repo='/repo', jobs=8, harness_timeout=600, total_timeout=7200, unwind=None, extra=()):
+def _run_chunk(names, repo='/repo', jobs=8, harness_timeout=600, total_timeout=7200, unwind=None, extra=()):
     t0 = time.time()
     res = {'status': 'inconclusive', 'harnesses': {}, 'reason': '', 'wall_s': 0.0, 'cmd': ''}
     if not names:
@@ -86,7 +86,7 @@ def run_harnesses(names, repo='/repo', jobs=8, harness_timeout=600, total_timeou
     cmd += list(extra)
     res['cmd'] = ' '.join(cmd)
     try:
-        p = subprocess.run(cmd, cwd=repo, env=env(), capture_output=True, text=True, timeout=total_timeout)
+        p = subprocess.run(cmd, cwd=repo, env=env(), capture_output=True, text=True, timeout=total_timeout, preexec_fn=_limit_memory)
     except subprocess.TimeoutExpired:
         res['reason'] = f'cargo kani timed out after {total_timeout} s'
         res['wall_s'] = time.time() - t0
@@ -152,6 +152,41 @@ def run_harnesses(names, repo='/repo', jobs=8, harness_timeout=600, total_timeou
     return res
 
 
+MEM_GB = int(os.environ.get('VERIF_KANI_MEM_GB', '10'))
+CHUNK = int(os.environ.get('VERIF_KANI_CHUNK', '10'))
+
+
+def _limit_memory():
+    """address-space cap per process (cargo, kani-driver, each cbmc): a harness whose SAT instance explodes dies
+    alone (reported INCONCLUSIVE) instead of taking the machine down (cbmc instances of 20-50 GB were observed)"""
+    import resource
+    lim = MEM_GB * 1024 ** 3
+    resource.setrlimit(resource.RLIMIT_AS, (lim, lim))
+
+
+def run_harnesses(names, repo='/repo', jobs=6, harness_timeout=600, total_timeout=7200, unwind=None, extra=()):
+    """run harnesses in chunks (kani-driver itself grew to 20 GB when handed 100 harnesses at once)"""
+    names = list(dict.fromkeys(names))
+    merged = {'status': 'ok', 'harnesses': {}, 'reason': '', 'wall_s': 0.0, 'cmd': '', 'log_tail': ''}
+    if not names:
+        return merged
+    rank = {'ok': 0, 'inconclusive': 1, 'failed': 2}
+    reasons = []
+    for i in range(0, len(names), CHUNK):
+        r = _run_chunk(names[i:i + CHUNK], repo=repo, jobs=jobs, harness_timeout=harness_timeout,
+                       total_timeout=total_timeout, unwind=unwind, extra=extra)
+        merged['harnesses'].update(r['harnesses'])
+        merged['wall_s'] += r['wall_s']
+        merged['cmd'] = merged['cmd'] or r['cmd']
+        merged['log_tail'] = r.get('log_tail', '')
+        if r['reason']:
+            reasons.append(r['reason'])
+        if rank[r['status']] > rank[merged['status']]:
+            merged['status'] = r['status']
+    merged['reason'] = '; '.join(reasons)
+    return merged
+
+
 def counterexample(harness, repo='/repo', harness_timeout=900):
     """re-run one failing harness with concrete playback; returns list of generated
     unit tests (text) for failed assertions (not covers)."""
@@ -160,7 +195,7 @@ def counterexample(harness, repo='/repo', harness_timeout=900):
            '--concrete-playback=print', '--harness-timeout', f'{harness_timeout}s',
            '--output-format', 'terse', '--harness', harness]
     try:
-        p = subprocess.run(cmd, cwd=repo, env=env(), capture_output=True, text=True, timeout=harness_timeout + 600)
+        p = subprocess.run(cmd, cwd=repo, env=env(), capture_output=True, text=True, timeout=harness_timeout + 600, preexec_fn=_limit_memory)
     except subprocess.TimeoutExpired:
         return []
     out = p.stdout
@@ -205,7 +240,7 @@ if __name__ == '__main__':
     to = 300
     if args and args[0].startswith('--timeout='):
         to = int(args.pop(0).split('=')[1])
-    r = run_harnesses(args, harness_timeout=to, jobs=14)
+    r = run_harnesses(args, harness_timeout=to, jobs=int(os.environ.get('VERIF_JOBS', '6')))
     print('status', r['status'], 'wall', round(r['wall_s'], 1), r['reason'][:3000])
     for n, h in sorted(r['harnesses'].items()):
         print(f"{n:50s} {h['status']:10s} checks={h['checks_total']} failed={h['checks_failed']} covers={h['covers_satisfied']}/{h['covers_total']} "
